@@ -156,7 +156,7 @@ fn run_matrix(seed: u64, auth_on: bool) -> Matrix {
     for m in &names {
         for (hname, header) in &headers {
             let authorised = !auth_on || *hname == "correct";
-            for shape in ["call", "notification", "batch-first", "batch-middle", "batch-last"] {
+            for shape in ["call", "notification", "batch-first", "batch-middle", "batch-last", "batch-after-invalid", "batch-before-invalid"] {
                 n += 1;
                 let height = 2;
                 let p = params_for(m, height, &bh, &th, n, network);
@@ -167,6 +167,9 @@ fn run_matrix(seed: u64, auth_on: bool) -> Matrix {
                     "notification" => json!({"jsonrpc": "2.0", "method": m, "params": p}).to_string(),
                     "batch-first" => json!([this, benign(8), benign(9)]).to_string(),
                     "batch-middle" => json!([benign(8), this, benign(9)]).to_string(),
+                    // an element that is not a request object at all, before / after the call under test
+                    "batch-after-invalid" => json!([1, this, benign(9)]).to_string(),
+                    "batch-before-invalid" => json!([benign(8), this, "x"]).to_string(),
                     _ => json!([benign(8), benign(9), this]).to_string(),
                 };
                 let is_protected = protected.contains(m);
@@ -194,7 +197,7 @@ fn run_matrix(seed: u64, auth_on: bool) -> Matrix {
                     }
                     if shape.starts_with("batch") {
                         // the permitted calls in the same batch keep working
-                        let ok = v.as_array().map(|a| a.iter().filter(|x| x["id"].as_u64() != Some(7)).all(|x| x["result"].is_string())).unwrap_or(false);
+                        let ok = v.as_array().map(|a| a.iter().filter(|x| matches!(x["id"].as_u64(), Some(8) | Some(9))).all(|x| x["result"].is_string())).unwrap_or(false);
                         if !ok {
                             bail!("permitted-batch-elements-affected", json!({"method": m, "shape": shape, "header": hname, "resp": v}));
                         }
@@ -280,7 +283,7 @@ impl Prop for C12 {
         vec![]
     }
     fn rule(&self) -> String {
-        "case = (seed, auth enabled?). The real start() serves on loopback; one synchronous HTTP/1.1 client enumerates every registered method x {single call, notification, batch element first / middle / last among permitted calls} x {no header, wrong user, wrong password, malformed header, correct header}. For every request that is not authorised, a public state digest (height, latest block, raw block, next block, txpool, nonces of the indexer and of two senders, brc20_balance - which times out if a block was opened) is taken before and after: it must not change, protected methods must answer 401 per element, public methods and the permitted batch elements must keep working; every non-protected method is called with well-formed parameters, so a mutating method missing from the protected list shows up as a digest change. With the correct header, and with authentication disabled, no method may answer 401. The seed varies the network, the malformed header and the inscription ids. exhaustive over methods x shapes x headers; distinct = (seed, auth flag); non-trivial = the full matrix ran".into()
+        "case = (seed, auth enabled?). The real start() serves on loopback; one synchronous HTTP/1.1 client enumerates every registered method x {single call, notification, batch element first / middle / last among permitted calls, batch element after / before an element that is not a request object} x {no header, wrong user, wrong password, malformed header, correct header}. For every request that is not authorised, a public state digest (height, latest block, raw block, next block, txpool, nonces of the indexer and of two senders, brc20_balance - which times out if a block was opened) is taken before and after: it must not change, protected methods must answer 401 per element, public methods and the permitted batch elements must keep working; every non-protected method is called with well-formed parameters, so a mutating method missing from the protected list shows up as a digest change. With the correct header, and with authentication disabled, no method may answer 401. The seed varies the network, the malformed header and the inscription ids. exhaustive over methods x shapes x headers; distinct = (seed, auth flag); non-trivial = the full matrix ran".into()
     }
     fn assumptions(&self) -> Vec<String> {
         vec![
